@@ -66,6 +66,86 @@ theorem addGraph_inv {m : KV} {f : List String} {a b : AG} (h : Inv m f a) (g : 
   · intro g' id r hr; rw [e2] at hr
     have := h.eindex g' id r hr
     exact ⟨mono _ this.1, mono _ this.2⟩
+  · intro f' hf'
+    rw [hmem]
+    simp only [KV.get_set, reduceCtorEq, ↓reduceIte, SKey.field.injEq] at hf'
+    by_cases c1 : f' = labelField g "e"
+    · left; rw [c1]; exact hgood.2
+    · by_cases c2 : f' = labelField g "v"
+      · left; rw [c2]; exact hgood.1
+      · simp only [c1, c2, ↓reduceIte] at hf'
+        right; exact h.fieldOwner f' hf'
+
+/-- On a state that represents an abstract graph store (no crash residue), the sweep AddGraph runs
+    for a name that is not listed finds nothing to delete. -/
+theorem sweepGraph_noop {s : KState} {a : AG} (h : Inv s.kv s.fields a) {g : String} (hg : g ∉ a.graphs) :
+    sweepGraph s g = s := by
+  have hEdgeAt : ∀ eid s' d l, edgeAt a g eid s' d l = none := by
+    intro eid s' d l
+    unfold edgeAt
+    cases hr : a.getE g eid with
+    | none => rfl
+    | some r => exact absurd (h.egraph g eid r hr) hg
+  have hV : ∀ id v, (SKey.vertex g id, v) ∉ s.kv := by
+    intro id v hp
+    have hs := KV.get_isSome_of_mem hp
+    rw [h.vertex] at hs
+    cases hr : a.getV g id with
+    | none => simp [hr] at hs
+    | some r => exact hg (h.vgraph g id r hr)
+  have hE : ∀ eid s' d l v, (SKey.edge g eid s' d l, v) ∉ s.kv := by
+    intro eid s' d l v hp
+    have hs := KV.get_isSome_of_mem hp
+    rw [h.edge, hEdgeAt] at hs
+    simp at hs
+  have hS : ∀ s' d eid l v, (SKey.src g s' d eid l, v) ∉ s.kv := by
+    intro s' d eid l v hp
+    have hs := KV.get_isSome_of_mem hp
+    rw [h.src, hEdgeAt] at hs
+    simp at hs
+  have hD : ∀ d s' eid l v, (SKey.dst g d s' eid l, v) ∉ s.kv := by
+    intro d s' eid l v hp
+    have hs := KV.get_isSome_of_mem hp
+    rw [h.dst, hEdgeAt] at hs
+    simp at hs
+  have hF : ∀ f v, (SKey.field f, v) ∈ s.kv → fieldGraph f ≠ g := by
+    intro f v hp e
+    exact hg (e ▸ h.fieldOwner _ (KV.get_isSome_of_mem hp))
+  have noop : ∀ (m : KV) (q : SKey → Bool), (∀ p ∈ m, q p.1 = false) → m.delWhere q = m := by
+    intro m q hq
+    unfold KV.delWhere
+    apply List.filter_eq_self.2
+    intro p hp; simp [hq p hp]
+  simp only [sweepGraph]
+  rw [noop s.kv _ (by
+        intro p hp; obtain ⟨k, v⟩ := p
+        cases k <;> simp
+        intro e; subst e; exact hE _ _ _ _ _ hp),
+      noop s.kv _ (by
+        intro p hp; obtain ⟨k, v⟩ := p
+        cases k <;> simp
+        intro e; subst e; exact hV _ _ hp),
+      noop s.kv _ (by
+        intro p hp; obtain ⟨k, v⟩ := p
+        cases k <;> simp
+        intro e; subst e; exact hS _ _ _ _ _ hp),
+      noop s.kv _ (by
+        intro p hp; obtain ⟨k, v⟩ := p
+        cases k <;> simp
+        intro e; subst e; exact hD _ _ _ _ _ hp)]
+  generalize hFS : List.filter (fun f => decide (fieldGraph f = g)) (List.filterMap _ s.kv) = FS
+  have hnil : FS = [] := by
+    rw [← hFS]
+    apply List.filter_eq_nil_iff.2
+    intro f hf
+    obtain ⟨p, hp, hpf⟩ := List.mem_filterMap.1 hf
+    obtain ⟨k, v⟩ := p
+    cases k <;> simp at hpf
+    subst hpf
+    simpa using hF _ _ hp
+  subst hnil
+  have : List.filter (fun _ => true) s.fields = s.fields := List.filter_eq_self.2 (fun _ _ => rfl)
+  simp [this]
 
 theorem addGraph_refines {s : KState} {a : AG} (h : Refines s a) (g : String)
     (hn : validName g = true → GoodName g) :
@@ -74,6 +154,16 @@ theorem addGraph_refines {s : KState} {a : AG} (h : Refines s a) (g : String)
   unfold step specStep
   by_cases hv : validName g = true
   · simp only [hv, Bool.not_true, Bool.false_eq_true, ↓reduceIte, and_true]
+    have hsw : (if hasGraph s g = true then s else sweepGraph s g) = s := by
+      split
+      · rfl
+      · rename_i hng
+        apply sweepGraph_noop h.inv
+        intro hin
+        apply hng
+        rw [hasGraph, KV.has_eq]
+        exact (h.inv.graph g).2 hin
+    rw [hsw]
     have ht := touch_refines h g
     refine ⟨?_, ht.stamps, ht.clock, ht.stampLe⟩
     exact addGraph_inv h.inv g (hn hv) rfl rfl rfl
@@ -275,6 +365,23 @@ theorem delGraph_inv {m : KV} {f : List String} {a b : AG} (h : Inv m f a) (g : 
       rw [get_delGraph, get_delGraph]
       simp only [dropKey, List.contains_eq_mem, hk, decide_false, Bool.false_eq_true, ↓reduceIte]
       exact h.eindex g' id r hr
+  · intro f' hf'
+    rw [get_delGraph] at hf'
+    simp only [dropKey] at hf'
+    by_cases hnot : f' ∈ delGraphFields m g
+    · simp [hnot] at hf'
+    · simp only [List.contains_eq_mem, hnot, decide_false, Bool.false_eq_true, ↓reduceIte] at hf'
+      have hown := h.fieldOwner f' hf'
+      refine (hmem _).2 ⟨?_, hown⟩
+      intro e
+      -- a persisted field of graph g would have been among the deleted fields
+      apply hnot
+      unfold delGraphFields
+      refine List.mem_filter.2 ⟨List.mem_filterMap.2 ?_, by simpa using e⟩
+      have hb : ((delGraphBase m g).get (.field f')).isSome := by
+        rw [get_delGraphBase]; simpa [dropKey] using hf'
+      obtain ⟨v, hv⟩ := Option.isSome_iff_exists.1 hb
+      exact ⟨(.field f', v), mem_of_alGet hv, rfl⟩
 
 theorem delGraph_refines {s : KState} {a : AG} (h : Refines s a) (g : String) :
     Refines (step s (.delGraph g)).1 (specStep a (.delGraph g)).1 ∧
